@@ -843,6 +843,68 @@ class Program(object):
 
 # ---------------------------------------------------------------- pure expression evaluation (K6)
 
+class PStr(object):
+    """A pointer into a NUL-terminated constant byte string (abstract value of `const char *` in evaluated regions)."""
+    __slots__ = ("data", "off")
+
+    def __init__(self, data, off=0):
+        if isinstance(data, str):
+            data = data.encode("latin-1")
+        self.data = data if data.endswith(b"\0") else data + b"\0"
+        self.off = off
+
+    def at(self, i=0):
+        j = self.off + i
+        if not (0 <= j < len(self.data)):
+            raise EvalError("string read out of bounds (offset %d of %d)" % (j, len(self.data)))
+        return self.data[j]
+
+    def text(self):
+        return self.data[self.off:].split(b"\0")[0]
+
+    def __add__(self, n):
+        if isinstance(n, int):
+            return PStr(self.data, self.off + n)
+        return NotImplemented
+    __radd__ = __add__
+
+    def __sub__(self, o):
+        if isinstance(o, PStr):
+            return self.off - o.off
+        if isinstance(o, int):
+            return PStr(self.data, self.off - o)
+        return NotImplemented
+
+    def __eq__(self, o):
+        if isinstance(o, PStr):
+            return self.data is o.data and self.off == o.off or (self.data == o.data and self.off == o.off)
+        return False
+
+    def __ne__(self, o):
+        return not self.__eq__(o)
+
+    def __lt__(self, o):
+        return isinstance(o, PStr) and self.off < o.off
+
+    def __le__(self, o):
+        return isinstance(o, PStr) and self.off <= o.off
+
+    def __gt__(self, o):
+        return isinstance(o, PStr) and self.off > o.off
+
+    def __ge__(self, o):
+        return isinstance(o, PStr) and self.off >= o.off
+
+    def __hash__(self):
+        return hash((self.data, self.off))
+
+    def __bool__(self):
+        return True
+
+    def __repr__(self):
+        return "PStr(%r+%d)" % (self.data[:24], self.off)
+
+
 class EvalError(Exception):
     pass
 
@@ -855,6 +917,8 @@ _SIGNED = {"char": 8, "signed char": 8, "ev_int8_t": 8, "short": 16, "ev_int16_t
 
 
 def cast_int(ty, v):
+    if not isinstance(v, int):
+        return v
     ty = ty.replace("const ", "").strip()
     if ty in _UNSIGNED:
         return v & ((1 << _UNSIGNED[ty]) - 1)
@@ -896,8 +960,15 @@ def evalx(e, env, P=None):
     t = e[0]
     if t == "int":
         return e[1]
+    if t == "str":
+        return PStr(e[1])
     if t == "var" and e[1] in env:
         return env[e[1]]
+    if t in ("deref", "idx"):
+        b = evalx(e[1], env, P)
+        if isinstance(b, PStr):
+            i = evalx(e[2], env, P) if t == "idx" else 0
+            return b.at(i)
     if t == "bin":
         op = e[1]
         if op == "&&":
@@ -1043,6 +1114,8 @@ def _tyinfo(t):
 
 
 def _conv(v, ty):
+    if not isinstance(v, int):
+        return v
     bits, signed = ty
     v &= (1 << bits) - 1
     if signed and v >> (bits - 1):
@@ -1159,6 +1232,13 @@ def tevalx(e, env, P, fn):
     if k_ in env:
         return env[k_]
     t = e[0]
+    if t in ("deref", "idx"):
+        b_ = tevalx(e[1], env, P, fn)
+        if isinstance(b_, PStr):
+            i_ = tevalx(e[2], env, P, fn) if t == "idx" else 0
+            v_ = b_.at(i_)
+            return v_ - 256 if v_ > 127 else v_      # plain char is signed on this platform
+        return evalx(e, env, P)
     if t == "bin":
         op = e[1]
         if op == "&&":
@@ -1166,6 +1246,16 @@ def tevalx(e, env, P, fn):
         if op == "||":
             return 1 if (tevalx(e[2], env, P, fn) or tevalx(e[3], env, P, fn)) else 0
         a, b = tevalx(e[2], env, P, fn), tevalx(e[3], env, P, fn)
+        if not isinstance(a, int) or not isinstance(b, int):
+            if op == "+":
+                return a + b
+            if op == "-":
+                return a - b
+            if op in ("==", "!="):
+                return int((a == b) == (op == "=="))
+            if op in ("<", "<=", ">", ">="):
+                return int({"<": a < b, "<=": a <= b, ">": a > b, ">=": a >= b}[op])
+            raise EvalError("pointer arithmetic %s" % op)
         ta, tb = texpr_type(e[2], fn, P), texpr_type(e[3], fn, P)
         if op in ("<<", ">>"):
             rt = (32, True) if ta and ta[0] < 32 else ta
